@@ -583,6 +583,36 @@ theorem C19_model_passes_oracle (inp : Input) (hv : inp.Valid) (hf : inp.Fits16)
     unfold chkFiles
     rw [if_neg (by simpa using e4 h4), if_neg (by simpa using e1)]
 
+/-! ### One simulated source, many requests -/
+
+/-- **Simulated sources: history independence.** Whatever the object held before and whether or not the request is
+then refused for its buffer length, after a `Configure` request naming `n ≥ 1` channels a `Start` builds the tables
+of `n` channels — the same tables a fresh source configured with `n` gets; a request refused at once (`n < 1`)
+changes nothing. -/
+theorem C19_generic_history_independent (g : GObj) (n : Int) (late : Bool) :
+    (1 ≤ n → some (genericStart (genericConfigure g n late).1) = genericPrepare n) ∧
+    (n < 1 → (genericConfigure g n late).1 = g ∧ (genericConfigure g n late).2 = false) := by
+  unfold genericConfigure genericPrepare genericStart
+  constructor
+  · intro h; rw [if_neg (by omega), if_neg (by omega)]
+  · intro h; rw [if_pos h]; exact ⟨rfl, rfl⟩
+
+/-- … and those tables (names, numbers, one group, one code per channel, `len = nchan`, codes decoding to one row of
+`g` columns) pass the run-time oracle for every held count within the 16-bit guard, 0 (never configured) included. -/
+theorem C19_generic_start_consistent (g : Nat) (hg : g < 65536) :
+    chkTables false (genericGeom g) (genericStart g) ((genericStart g).streams.map decoded) = none := by
+  by_cases h0 : g = 0
+  · subst h0
+    simp [chkTables, genericStart, genericTables, genericGeom, dupFree, sameBag, strictAdj, allChans, Group.range]
+  · have hf : (Input.generic (g : Int)).Fits16 := by show (g : Int) < 65536; omega
+    have h := (C19_model_passes_oracle (.generic (g : Int)) trivial hf).1
+    have hm : Input.model (.generic (g : Int)) = some (genericStart g) := by
+      have h1 : ¬ ((g : Int) < 1) := by omega
+      simp only [Input.model, genericPrepare, genericStart]
+      rw [if_neg h1]; simp
+    rw [hm] at h
+    simpa [chkC19, Input.isTDM, Input.geom] using h
+
 /-- and conversely the oracle is sound: tables it accepts have distinct numbers per pixel, distinct names, agreeing
 partners, and the members of the reported groups (with multiplicity) are a rearrangement of the numbers in use:
 every number in use lies in exactly one group, no group has a member that is not in use -/
